@@ -1,0 +1,42 @@
+//go:build verif
+
+// Contracts for the tvc verifier (/verif). Comment-only: with the `verif` tag off this file does not exist,
+// with it on it adds no code. Syntax: /verif/DESIGN.md appendix A.
+
+package daemon
+
+//@ for C19
+
+//@ # Pool sizing with the default capacity ratio (ratio 1, shift 0).
+//@ func getPoolConfig
+//@   requires cfg != nil && validLimits(limit)
+//@   requires cfg.EniCapRatio == real(1) && cfg.EniCapShift == 0
+//@   # configured interface counts are sane integers (no 64-bit overflow in min_eni * addresses-per-interface)
+//@   requires cfg.MinENI < 1048576 && cfg.MaxENI < 1048576
+//@   arith
+//@   panics
+//@   ensures result1 == nil && result0 != nil
+//@   ensures result0.MaxENI >= 0 && result0.MaxMemberENI >= 0 && result0.Capacity >= 0 && result0.ERdmaCapacity >= 0
+//@   # interface slots: at most the attachable secondary interfaces
+//@   ensures result0.MaxENI <= limit.Adapters - 1
+//@   ensures cfg.MaxENI > 0 ==> result0.MaxENI <= cfg.MaxENI
+//@   ensures result0.MaxMemberENI <= limit.MemberAdapterLimit
+//@   # address capacity: slots times addresses per interface
+//@   ensures result0.MaxIPPerENI <= limit.IPv4PerAdapter
+//@   ensures result0.Capacity == result0.MaxENI * result0.MaxIPPerENI
+//@   ensures result0.Capacity <= (limit.Adapters - 1) * limit.IPv4PerAdapter
+//@   ensures result0.ERdmaCapacity <= erdmaRes(limit) * limit.IPv4PerAdapter
+//@   # watermarks: 0 <= min <= max <= capacity
+//@   ensures result0.MinPoolSize <= result0.MaxPoolSize && result0.MaxPoolSize <= result0.Capacity
+//@   ensures 0 <= result0.MinPoolSize
+
+//@ func checkInstance
+//@   requires limit != nil && config != nil
+//@   panics
+//@   # IPv6 is enabled only if the instance type supports it (and, in multi-IP mode, with equal per-interface counts)
+//@   ensures result1 ==> limit.IPv6PerAdapter > 0 && (config.IPStack == "dual" || config.IPStack == "ipv6")
+//@   ensures result1 && daemonMode == "ENIMultiIP" ==> limit.IPv6PerAdapter == limit.IPv4PerAdapter
+//@   ensures result0 <==> (config.IPStack == "ipv4" || config.IPStack == "dual")
+//@   # trunking / RDMA stay on only if the instance type can deliver them
+//@   ensures config.EnableENITrunking ==> old(config.EnableENITrunking) && limit.MemberAdapterLimit > 0
+//@   ensures config.EnableERDMA ==> old(config.EnableERDMA) && erdmaRes(limit) > 0
